@@ -1,9 +1,15 @@
 package searchctl
 
 import (
+	"context"
 	"time"
 
 	"github.com/herohde/morlock/pkg/board"
+	"github.com/herohde/morlock/pkg/eval"
+	"github.com/herohde/morlock/pkg/search"
+	"github.com/seekerror/stdlib/pkg/lang"
+	"github.com/seekerror/stdlib/pkg/util/contextx"
+	"github.com/seekerror/stdlib/pkg/util/iox"
 )
 
 // C15-1: the limits granted under a time control, for every clock, moves-to-go and colour.
@@ -20,4 +26,169 @@ func Harness_C15_Limits() {
 	verifAssert(soft >= 0, "soft limit is not negative")
 	verifAssert(hard >= soft, "hard limit is at least the soft limit")
 	verifAssert(hard <= remaining, "the hard limit never exceeds the time left on the clock")
+}
+
+// ---------------------------------------------------------------------------
+// C15-2: the iterative-deepening loop, run as a function with a stub root search whose
+// results are symbolic.
+
+type stubCall struct {
+	depth       int
+	alpha, beta eval.Score
+	b           *board.Board
+	tt          search.TranspositionTable
+}
+
+type stubSearch struct {
+	calls   []stubCall
+	scores  []eval.Score
+	halted  []bool
+	nodes   []uint64
+	maxCall int
+}
+
+func symValidScore(n string) eval.Score {
+	t := nondetU8(n+".kind") & 3
+	m := nondetI8(n + ".mate")
+	verifAssume(m != 0 && m != -128)
+	p := eval.Pawns(nondetF32(n + ".pawns"))
+	verifAssume(p > -1000 && p < 1000)
+	switch t {
+	case 0:
+		return eval.HeuristicScore(p)
+	case 1:
+		return eval.MateInXScore(m)
+	case 2:
+		return eval.InfScore
+	}
+	return eval.NegInfScore
+}
+
+func (s *stubSearch) Search(ctx context.Context, sctx *search.Context, b *board.Board, depth int) (uint64, eval.Score, []board.Move, error) {
+	i := len(s.calls)
+	s.calls = append(s.calls, stubCall{depth: depth, alpha: sctx.Alpha, beta: sctx.Beta, b: b, tt: sctx.TT})
+	if i >= s.maxCall {
+		return 0, eval.InvalidScore, nil, search.ErrHalted // bound of the harness: the run is ended as a halt would
+	}
+	sc := symValidScore("score")
+	halted := nondetBool("halted")
+	n := nondetU64("nodes")
+	s.scores = append(s.scores, sc)
+	s.halted = append(s.halted, halted)
+	s.nodes = append(s.nodes, n)
+	if halted {
+		return 0, eval.InvalidScore, nil, search.ErrHalted
+	}
+	return n, sc, []board.Move{{From: board.Square(depth), To: board.Square(depth + 8)}}, nil
+}
+
+func mateWithin(s eval.Score, depth int) bool {
+	switch s.Type {
+	case eval.Inf, eval.NegInf:
+		return true
+	case eval.MateInX:
+		d := int(s.Mate)
+		if d < 0 {
+			d = -d
+		}
+		return d <= depth
+	}
+	return false
+}
+
+func Harness_C15_Loop() {
+	h := &handle{init: iox.NewAsyncCloser(), quit: iox.NewAsyncCloser()}
+	out := make(chan search.PV, 1)
+	stub := &stubSearch{maxCall: 3}
+	var opt Options
+	limit := uint(verifSplit(uint64(nondetU8("limit")), 0, 4)) // 0 = no depth limit
+	if limit > 0 {
+		opt.DepthLimit = lang.Some(limit)
+	}
+	pos, _ := board.NewPosition([]board.Placement{{Square: board.E1, Color: board.White, Piece: board.King}, {Square: board.E8, Color: board.Black, Piece: board.King}}, 0, 0)
+	b := board.NewBoard(board.NewZobristTable(0), pos, board.White, 0, 1)
+	tt := search.NoTranspositionTable{}
+	verifReach("loop")
+	h.process(context.Background(), stub, b, tt, eval.Random{}, opt, out)
+
+	// every call: next depth, full window, the given board and table
+	for i, c := range stub.calls {
+		verifAssert(c.depth == i+1, "iterations search depth 1, 2, 3, ... in increasing order")
+		verifAssert(c.alpha == eval.NegInfScore && c.beta == eval.InfScore, "every iteration searches the full window")
+		verifAssert(c.b == b, "every iteration searches the given board")
+	}
+	// completed iterations and the reason the loop ended
+	done := 0
+	for i := range stub.scores {
+		if stub.halted[i] {
+			break
+		}
+		done++
+		stop := (limit > 0 && uint(i+1) == limit) || mateWithin(stub.scores[i], i+1)
+		last := i == len(stub.scores)-1 && len(stub.calls) == len(stub.scores)
+		if stop {
+			verifAssert(last, "the analysis ends at the requested depth limit or as soon as a forced mate within the searched depth is found")
+		} else {
+			verifAssert(!last, "otherwise the analysis goes on to the next depth")
+		}
+	}
+	// what is reported: the last completed iteration, faithfully
+	verifAssert(h.init.IsClosed(), "the first-iteration latch is released when the analysis ends")
+	pv, ok := <-out
+	if done > 0 {
+		verifAssert(ok, "a completed iteration is reported")
+		verifAssert(pv.Depth == done && pv.Score == stub.scores[done-1] && pv.Nodes == stub.nodes[done-1] && len(pv.Moves) == 1 && int(pv.Moves[0].From) == done, "the report carries the depth, score, nodes and variation the search returned for that depth")
+		verifAssert(h.pv.Depth == done && h.pv.Score == stub.scores[done-1], "Halt would return the last completed iteration")
+		_, more := <-out
+		verifAssert(!more, "the report channel is closed when the analysis ends")
+	} else {
+		verifAssert(!ok, "without a completed iteration nothing is reported and the channel is closed")
+	}
+}
+
+// ---------------------------------------------------------------------------
+// C15-3: Halt against a running analysis (real goroutines of Launch, every interleaving
+// up to the preemption bound): never returns before depth 1 is complete, returns a fully
+// completed iteration at least as deep as everything reported before the halt.
+
+type gatedSearch struct{ k int }
+
+func (g *gatedSearch) Search(ctx context.Context, sctx *search.Context, b *board.Board, depth int) (uint64, eval.Score, []board.Move, error) {
+	if depth > 1 && contextx.IsCancelled(ctx) {
+		return 0, eval.InvalidScore, nil, search.ErrHalted
+	}
+	if depth > g.k {
+		// deeper iterations only end by cancellation
+		<-ctx.Done()
+		return 0, eval.InvalidScore, nil, search.ErrHalted
+	}
+	return uint64(depth), eval.HeuristicScore(eval.Pawns(depth)), []board.Move{{From: board.Square(depth), To: board.Square(depth + 8)}}, nil
+}
+
+func Harness_C15_Halt() {
+	k := int(verifSplit(uint64(nondetU8("iterations")), 1, 2))
+	it := &Iterative{Root: &gatedSearch{k: k}}
+	pos, _ := board.NewPosition([]board.Placement{{Square: board.E1, Color: board.White, Piece: board.King}, {Square: board.E8, Color: board.Black, Piece: board.King}}, 0, 0)
+	b := board.NewBoard(board.NewZobristTable(0), pos, board.White, 0, 1)
+	h, out := it.Launch(context.Background(), b, search.NoTranspositionTable{}, eval.Random{}, Options{})
+	verifReach("halt-race")
+	// what has been reported before the halt is requested
+	seen := 0
+	select {
+	case pv, ok := <-out:
+		if ok {
+			seen = pv.Depth
+		}
+	default:
+	}
+	pv := h.Halt()
+	verifAssert(pv.Depth >= 1, "Halt never returns before depth 1 is complete")
+	verifAssert(pv.Depth >= seen, "Halt returns an iteration at least as deep as every iteration reported before the halt was requested")
+	verifAssert(pv.Depth <= k && pv.Score == eval.HeuristicScore(eval.Pawns(pv.Depth)) && len(pv.Moves) == 1 && int(pv.Moves[0].From) == pv.Depth, "Halt returns a fully completed iteration")
+	// the analysis goroutine ends: the report channel gets closed
+	for {
+		if _, ok := <-out; !ok {
+			break
+		}
+	}
 }
